@@ -122,6 +122,36 @@ def check_i3(chk, m, K):
         chk.expect("I3", "queue-touching paths of %s" % name, n, 1)
 
 
+def hint_protocol(m, K, drain_segs, member):
+    """A kernel member used as 'a request has been posted since the last drain'.  It is a sound reason to skip the drain only if
+    (1) every path of fibre_run_atomic that sends stores a non-zero value to it AFTER the send, atomically, and (2) the drain lowers
+    it only BEFORE it starts receiving: a store of 0 after a receive (in particular after the final NULL receive) wipes the hint
+    of a request posted in between, which then waits for some unrelated later request.  -> None if sound, else the reason."""
+    hp = K.kptr(member)
+    fn, ps = fib.fn_paths(m, "fibre_run_atomic")
+    for p in ps:
+        if paths.is_assert_fail_path(p):
+            continue
+        sends = [k for k, e in enumerate(p.events) if e.kind == "call" and e.callee == "messageq_send" and K.queue_arg(e.args[0]) == "atomic_runq"]
+        if not sends:
+            continue
+        raises = [k for k, e in enumerate(p.events) if e.kind in ("store", "rmw") and e.ptr == hp and k > sends[-1] and
+                  not (e.val[0] == "c" and e.val[2] == 0)]
+        if not raises:
+            return "fibre_run_atomic sends a request without raising kernel.%s afterwards" % member
+        if any(e.kind in ("store", "rmw") and e.ptr == hp and not e.inst.is_atomic() for e in p.events):
+            return "kernel.%s is written with a plain (non-atomic) access in interrupt context" % member
+    for s, p in drain_segs:
+        seen_recv = s != drain_segs[0][0]       # a segment that starts at the loop head has received before
+        for e in p.events:
+            if e.kind == "call" and e.callee == "messageq_receive":
+                seen_recv = True
+            if e.kind in ("store", "rmw") and e.ptr == hp and e.val[0] == "c" and e.val[2] == 0 and seen_recv:
+                return ("kernel.%s is lowered at %s, after the queue has been received from: a request posted between the final (NULL) "
+                        "receive and that store has its hint wiped and is not drained by the next pass, fibre_run or fibre_kill" % (member, e.inst.loc))
+    return None
+
+
 def check_i4(chk, m, K):
     fn, segs = fib.fn_segments(m, "handle_atomic_runq")
     chk.note_fn(fn)
@@ -143,8 +173,23 @@ def check_i4(chk, m, K):
                 facts = fib.queue_empty_facts(p, K)
                 if facts.get("atomic", (None, 0))[0] is True and not rc:
                     got_null = True
+            note = ""
+            if not got_null and not rc:
+                # skipped on a 'nothing posted' hint kept in the kernel (a member the documented structure does not have)?
+                known = {"current", "state", "now", "runq", "atomic_runq", "timerq", "taint_flags"}
+                hints = set(K.member_of(x[1])[0] for c, t, i in p.conds for x in paths.subexprs(c)
+                            if x[0] in ("ld", "ald") and x[1] is not None and K.member_of(x[1]) and K.member_of(x[1])[0] not in known)
+                if len(hints) == 1:
+                    why = hint_protocol(m, K, segs, hints.pop())
+                    if why is None:
+                        got_null = True
+                        note = " (or a 'request posted' hint, raised after every send and lowered only before the drain, reads 0)"
+                    else:
+                        chk.ob("I4.drain-complete", "handle_atomic_runq %s..ret" % s.lstrip("%"), False,
+                               "the drain is skipped on a hint whose protocol loses requests: %s" % why, p.ret_inst.loc, fn.name)
+                        continue
             chk.ob("I4.drain-complete", "handle_atomic_runq %s..ret" % s.lstrip("%"), got_null or s == fn.entry.name and not rc and False,
-                   "the drain stops only when messageq_receive returns NULL", p.ret_inst.loc, fn.name)
+                   "the drain stops only when messageq_receive returns NULL" + note, p.ret_inst.loc, fn.name)
     chk.expect("I4", "exits of the drain loop", exits, 1)
 
 
